@@ -270,4 +270,112 @@ theorem amount_hover_exact (ws perUri : Option Resolved) (doc : Journal) (p : Ls
   obtain ⟨tx, htx, po, hpo, h1, h2, _, h4⟩ := findElement_amount h
   exact ⟨tx, htx, po, hpo, h1, h2, h4⟩
 
+/-! ### Counterexamples (each reproduced against the real server by a witness in replays/C20) -/
+
+namespace Cex
+
+def rng (l c1 c2 : Nat) : Rng := ⟨⟨l, c1, 0⟩, ⟨l, c2, 0⟩⟩
+/-- `x:y` -/
+def xy : Bytes := [120, 58, 121]
+/-- `o:p` -/
+def op : Bytes := [111, 58, 112]
+def usd : Bytes := [85, 83, 68]
+
+def posting (acct : Bytes) (line : Nat) (q : Option Int) : Posting :=
+  { (default : Posting) with
+    account := ⟨acct, rng line 3 6⟩
+    amount := q.map fun n => ⟨⟨n, 0⟩, [], ⟨usd, .right, rng line 8 13⟩, false, rng line 8 13⟩ }
+
+def tx (line : Nat) (ps : List Posting) : Transaction :=
+  { (default : Transaction) with date := ⟨2024, 1, 15, rng line 1 11⟩, postings := ps }
+
+def journal (txs : List Transaction) : Journal := ⟨txs, [], [], []⟩
+
+/-- file b: one transaction posting 5 USD to x:y -/
+def fileB : Journal := journal [tx 1 [posting xy 2 (some 5)]]
+def fileC : Journal := journal [tx 1 [posting xy 2 (some 7)]]
+def b : Bytes := [98]
+def c : Bytes := [99]
+
+/-- root `include b` twice, resolved with a warm loader cache: `FileOrder = [b, b]`. -/
+def resolvedDup : Resolved := ⟨some (journal []), [(b, fileB)], [b, b]⟩
+
+/-- root includes b, b includes c; resolved with a warm cache: `FileOrder = [b]`, c is in
+    neither `Files` nor `FileOrder`. -/
+def resolvedTruncated : Resolved := ⟨some (journal []), [(b, fileB)], [b]⟩
+def resolvedFull : Resolved := ⟨some (journal []), [(b, fileB), (c, fileC)], [b, c]⟩
+
+end Cex
+
+open Cex in
+/-- A `FileOrder` that lists a file twice doubles that file's figures: 2 postings and 10 USD are
+    shown where root + members once have 1 posting and 5 USD. -/
+theorem dup_include_doubled_counterexample :
+    ¬ resolvedDup.order.Nodup ∧
+    countPostings xy (allTransactions resolvedDup) = 2 ∧
+    balLookup (accountBalances (allTransactions resolvedDup)) (xy, usd) = some ⟨10, 0⟩ ∧
+    countPostings xy (primaryTxs resolvedDup ++ [b].flatMap (fileTxs resolvedDup.files)) = 1 ∧
+    balLookup (accountBalances (primaryTxs resolvedDup ++ [b].flatMap (fileTxs resolvedDup.files)))
+      (xy, usd) = some ⟨5, 0⟩ := by
+  decide
+
+open Cex in
+/-- A `FileOrder` that misses a member file (the loader does not follow the includes of a cached
+    file) misses its figures. -/
+theorem truncated_tree_counterexample :
+    countPostings xy (allTransactions resolvedTruncated) = 1 ∧
+    balLookup (accountBalances (allTransactions resolvedTruncated)) (xy, usd) = some ⟨5, 0⟩ ∧
+    countPostings xy (allTransactions resolvedFull) = 2 ∧
+    balLookup (accountBalances (allTransactions resolvedFull)) (xy, usd) = some ⟨12, 0⟩ := by
+  decide
+
+open Cex in
+/-- With a workspace, a request from a file outside the root's include tree is answered from
+    the root's tree only: the posting under the cursor is not counted. -/
+theorem orphan_file_counterexample :
+    hover (some ⟨some fileB, [], []⟩) none (journal [tx 1 [posting op 2 (some 3)]]) ⟨1, 2⟩
+      = some ⟨.account op [] 0, (1, 2, 1, 5)⟩ := by
+  decide
+
+open Cex in
+/-- `2024-01-15 (12) Shop`: the payee range is estimated as "one column after the date", so a
+    cursor on `Shop` (columns 17..20) finds nothing while a cursor on the code finds the payee. -/
+theorem payee_range_counterexample :
+    let t : Transaction := { tx 1 [] with code := [49, 50], description := [83, 104, 111, 112] }
+    findElement [t] ⟨0, 16⟩ = none ∧ findElement [t] ⟨0, 18⟩ = none ∧
+    (findElement [t] ⟨0, 12⟩).map Element.rng = some ⟨⟨1, 12, 0⟩, ⟨1, 16, 0⟩⟩ := by
+  decide
+
+open Cex in
+/-- Tags written on an indented comment line of a transaction never reach the syntax tree
+    (parser.parsePosting parses the comment and discards it): for the tree the real parser
+    returns for `2024-01-15 Shop⏎  ; trip:x⏎  x:y  5 USD⏎` the tag count is 0, the journal
+    has 1 use. -/
+theorem txline_tags_dropped_counterexample :
+    let parsed : Transaction := { tx 1 [posting xy 3 (some 5)] with description := [83, 104, 111, 112] }
+    let written : GTx := ⟨[83, 104, 111, 112], [([116, 114, 105, 112], [120])], [⟨xy, some ⟨5, usd⟩, none, []⟩]⟩
+    countTag [116, 114, 105, 112] [parsed] = 0 ∧ tagCount [written] [116, 114, 105, 112] = 1 := by
+  decide
+
 end HL.Props.C20Hover
+
+/-! ### Audit aliases
+
+  `./check C20` audits the theorems whose names start with `HL.Props.C20.`; the statements are
+  the ones above. -/
+namespace HL.Props.C20
+theorem hover_account_sum_exact : type_of% @HL.Props.C20Hover.account_sum_exact := @HL.Props.C20Hover.account_sum_exact
+theorem hover_counts_exact : type_of% @HL.Props.C20Hover.counts_exact := @HL.Props.C20Hover.counts_exact
+theorem hover_payee_count_exact : type_of% @HL.Props.C20Hover.payee_count_exact := @HL.Props.C20Hover.payee_count_exact
+theorem hover_all_transactions_once : type_of% @HL.Props.C20Hover.all_transactions_once := @HL.Props.C20Hover.all_transactions_once
+theorem hover_spec_perm : type_of% @HL.Props.C20Hover.spec_perm := @HL.Props.C20Hover.spec_perm
+theorem hover_aggregates_exact_partial : type_of% @HL.Props.C20Hover.hover_aggregates_exact_partial := @HL.Props.C20Hover.hover_aggregates_exact_partial
+theorem hover_uses_whole_tree : type_of% @HL.Props.C20Hover.hover_uses_whole_tree := @HL.Props.C20Hover.hover_uses_whole_tree
+theorem hover_without_workspace : type_of% @HL.Props.C20Hover.hover_without_workspace := @HL.Props.C20Hover.hover_without_workspace
+theorem hover_amount_exact : type_of% @HL.Props.C20Hover.amount_hover_exact := @HL.Props.C20Hover.amount_hover_exact
+theorem hover_dup_include_doubled_counterexample : type_of% @HL.Props.C20Hover.dup_include_doubled_counterexample := @HL.Props.C20Hover.dup_include_doubled_counterexample
+theorem hover_truncated_tree_counterexample : type_of% @HL.Props.C20Hover.truncated_tree_counterexample := @HL.Props.C20Hover.truncated_tree_counterexample
+theorem hover_orphan_file_counterexample : type_of% @HL.Props.C20Hover.orphan_file_counterexample := @HL.Props.C20Hover.orphan_file_counterexample
+theorem hover_payee_range_counterexample : type_of% @HL.Props.C20Hover.payee_range_counterexample := @HL.Props.C20Hover.payee_range_counterexample
+theorem hover_txline_tags_dropped_counterexample : type_of% @HL.Props.C20Hover.txline_tags_dropped_counterexample := @HL.Props.C20Hover.txline_tags_dropped_counterexample
+end HL.Props.C20
